@@ -206,6 +206,13 @@ def _flow(c):
             t = T.CompositeTransform([T.PiecewiseRationalQuadraticCouplingTransform(mask, C.resnet(ctxdim), num_bins=3, tails="linear", tail_bound=2.5),
                                       T.LULinear(f, identity_init=False),
                                       T.AffineCouplingTransform([0, 1, 0][:f], C.resnet(ctxdim))])
+    elif tr == "coupling_uncond":
+        # spline couplings that also transform their identity features (apply_unconditional_transform=True), linear tails
+        if f == 1:
+            t = T.PiecewiseQuadraticCDF([1], num_bins=3, tails="linear", tail_bound=2.5)
+        else:
+            t = T.CompositeTransform([T.PiecewiseRationalQuadraticCouplingTransform([1, 0, 1][:f], C.resnet(ctxdim), num_bins=3, tails="linear", tail_bound=2.5, apply_unconditional_transform=True),
+                                      T.PiecewiseQuadraticCouplingTransform([0, 1, 0][:f], C.resnet(ctxdim), num_bins=3, tails="linear", tail_bound=2.5, apply_unconditional_transform=True)])
     elif tr == "lu_leaky":
         t = T.CompositeTransform([T.LULinear(f, identity_init=False), T.LeakyReLU(0.3), T.PointwiseAffineTransform(shift=0.3, scale=1.7)])
     elif tr == "inverse_ar":
@@ -230,7 +237,7 @@ def _flow_valid(c):
     return True
 
 
-reg(DSubject("Flow", {"transform": ["ar_affine", "coupling_rq", "lu_leaky", "inverse_ar"], "features": [2, 1, 3], "base": ["standard", "conditional", "diag", "mog"], "context": ["raw", None, "embedded", "embedded_mlp"]},
+reg(DSubject("Flow", {"transform": ["ar_affine", "coupling_rq", "lu_leaky", "inverse_ar", "coupling_uncond"], "features": [2, 1, 3], "base": ["standard", "conditional", "diag", "mog"], "context": ["raw", None, "embedded", "embedded_mlp"]},
              _flow, lambda c: (c["features"],), ctx_shape=lambda c: None if c["context"] is None else ((2,) if c["context"] == "raw" else (3,)), is_flow=True, valid=_flow_valid))
 
 
